@@ -75,15 +75,13 @@ Definition lla_unmarshal (b : bytes) : res bytes :=
   | _ => if negb (at_ b 1 =? 1) then Err EOther else Ok (skipn 2 b)
   end.
 
-(* MTU.unmarshal(b): l := int(b[1]*8) - 2  (uint8 multiplication wraps);
-   l != 6 -> error; *m = Uint32(b[2:6]).
-   DEFECT (mtu-offset): the MTU field of the option is b[4:8]; b[2:6] is the
-   16 reserved bits followed by the HIGH half of the MTU. *)
-Definition mtu_off : nat := 2.
+(* MTU.unmarshal(b): l := int(b[1])*8 - 2; l != 6 -> error; *m = Uint32(b[4:8])
+   (repaired: was int(b[1]*8) in uint8 and b[2:6], finding mtu-offset) *)
+Definition mtu_off : nat := 4.
 Definition mtu_unmarshal (b : bytes) : res N :=
   match b with
   | [] => Panic
-  | _ => if negb (Z.of_N (u8 (at_ b 1 * 8)) - 2 =? 6)%Z then Err EOther
+  | _ => if negb (Z.of_N (at_ b 1) * 8 - 2 =? 6)%Z then Err EOther
          else Ok (be32_at b mtu_off)
   end.
 
@@ -124,10 +122,10 @@ Definition ri_len_ok (l pl : N) : bool :=
   else if pl <? 65 then (l =? 2) || (l =? 3)
   else if pl <? 129 then (l =? 3)
   else false.
-(* copy bytes up to prefix len bits: CopyBytes(b[8 : 8+(pl/8)])
-   DEFECT (ri-prefix-bits): the partial byte of a prefix length that is not a
-   multiple of 8 is dropped. *)
-Definition ri_prefix_bytes (b : bytes) (pl : N) : bytes := sub b 8 (N.to_nat (pl / 8)).
+(* prefix := make(net.IP, 16); copy(prefix, b[8:8+(pl+7)/8]); prefix.Mask(net.CIDRMask(pl,128))
+   (repaired: was CopyBytes(b[8:8+pl/8]), finding ri-prefix-bits) *)
+Definition ri_prefix_bytes (b : bytes) (pl : N) : bytes :=
+  ip_mask128 (firstn 16 (sub b 8 (N.to_nat ((pl + 7) / 8)) ++ repeat 0 16)) pl.
 Definition ri_unmarshal (ri : route_info) (b : bytes) : res (route_info * bool) :=
   match b with
   | [] => Panic
@@ -159,9 +157,9 @@ Definition rd_unmarshal (r : rdnss) (b : bytes) : res (rdnss * bool) :=
   end.
 
 (* DNSSearchList.unmarshal(b) via RawOption.unmarshal:
-   l := int(r.Length*8) - 2 (uint8 wrap) must equal len(b[2:]).
-   DEFECT (dnssl-long): options of 256 bytes or more are rejected because of the wrap. *)
-Definition raw_len (len8 : N) : Z := Z.of_N (u8 (len8 * 8)) - 2.
+   l := int(r.Length)*8 - 2 must equal len(b[2:])
+   (repaired: was int(r.Length*8) in uint8, finding dnssl-long). *)
+Definition raw_len (len8 : N) : Z := Z.of_N len8 * 8 - 2.
 Definition isascii (l : bytes) : bool := forallb (fun c => c <? 128) l.
 Definition has_byte (c : N) (l : bytes) : bool := existsb (fun x => x =? c) l.
 (* labels containing "xn--" go through the third-party punycode decoder: not modelled *)
@@ -266,12 +264,12 @@ Record router := mkRouter {
 Definition router_new (mac ip : bytes) : router :=
   mkRouter mac ip false false 0 0 0 0 0 0 [] opts_zero.
 
-(* icmp6.go:210-219: the field assignments.
-   DEFECT (router-mtu-unset): Router.MTU is not assigned from the MTU option. *)
+(* icmp6.go:210-220: the field assignments (router.MTU = uint32(options.MTU) added by the
+   repair of finding router-mtu-unset). *)
 Definition router_update (r : router) (p : bytes) (o : new_options) : router :=
   mkRouter (r_mac r) (r_ip r)
     (bit_and (at_ p 5) 128) (bit_and (at_ p 5) 64)
     (N.shiftr (N.land (at_ p 5) 24) 3) (at_ p 4)
     (be16_at p 6) (be32_at p 8) (be32_at p 12)
-    (r_mtu r)
+    (o_mtu o)
     (o_prefixes o) o.
